@@ -87,7 +87,7 @@ SUBS = T.oneof(T.list(), T.list(SUB), T.list(SUB, SUB))
 SVC_A = T.obj(SV, ldm_maintenance=T.opaque("maintenance"), data_provider_its_aid=T.symset(), data_consumer_its_aid=T.symset(),
               subscriptions=SUBS, last_checked_subscriptions_time=T.keymap("lastmap", SUB, TS), _lock=T.opaque("rlock"))
 A = dict(S, engine_setup=setup_attend)
-contract(f"{SV}.remove_subscription", shapes={"self": SVC_A, "subscription": SUB}, modifies=["self.subscriptions", _M],
+contract(f"{SV}.remove_subscription", bound="0..2 subscriptions", shapes={"self": SVC_A, "subscription": SUB}, modifies=["self.subscriptions", _M],
          ensures={"removed_from_the_list": "subscription not in self.subscriptions",
                   "its_cadence_state_is_dropped": "not map_has(" + _M + ", subscription)",
                   "other_subscriptions_stay_in_order": "[s for s in old_subscriptions(self) if s != subscription][:2] == list(self.subscriptions) or count_of(old_subscriptions(self), subscription) > 1"},
@@ -96,20 +96,20 @@ contract(f"{SV}.remove_subscription", shapes={"self": SVC_A, "subscription": SUB
 contract(f"{SV}.search_data", shapes={"self": SVC_A, "subscription": SUB}, returns=T.oneof(T.tuple(), T.tuple(T.opaque("object")), T.tuple(T.opaque("object"), T.opaque("object"))),
          ensures={"one_search_with_the_subscriptions_own_selection": "len(ghost('searches')) == 1 and ghost('searches')[0][1] == result and request_of(ghost('searches')[0][0], subscription)"},
          **A)
-contract(f"{SV}.attend_subscriptions", shapes={"self": SVC_A}, requires=["now() >= 1072915200"], modifies=["self.subscriptions", _M], inline=[f"{SV}.search_data", f"{SV}.get_data_consumer_its_aid", f"{SV}.remove_subscription"],
+contract(f"{SV}.attend_subscriptions", bound="0..2 subscriptions, searches returning 0..2 objects", shapes={"self": SVC_A}, requires=["now() >= 1072915200"], modifies=["self.subscriptions", _M], inline=[f"{SV}.search_data", f"{SV}.get_data_consumer_its_aid", f"{SV}.remove_subscription"],
          ensures={"every_subscription_is_searched_once_in_order": "len(ghost('searches')) == old(len(self.subscriptions)) and all(request_of(ghost('searches')[i][0], old_subscriptions(self)[i]) for i in range(len(ghost('searches'))))",
                   "notification_attempted_exactly_for_registered_consumers_with_enough_matching_objects": "len(ghost('notify_calls')) == n_due(self)",
                   "first_due_subscription_gets_its_own_search_result": "implies(old(len(self.subscriptions)) > 0 and due(self, 0), ghost('notify_calls')[0][0] == old_subscriptions(self)[0] and ghost('notify_calls')[0][1] == ghost('searches')[0][1])",
                   "second_due_subscription_gets_its_own_search_result": "implies(old(len(self.subscriptions)) > 1 and due(self, 1), ghost('notify_calls')[n_due(self) - 1][0] == old_subscriptions(self)[1] and ghost('notify_calls')[n_due(self) - 1][1] == ghost('searches')[1][1])"},
          cover=["len(ghost('notify_calls')) == 2", "len(ghost('notify_calls')) == 0"], **A)
 
-contract(f"{SV}.delete_subscription", shapes={"self": SVC_A, "subscription_id": T.int()}, modifies=["self.subscriptions", _M],
+contract(f"{SV}.delete_subscription", bound="0..2 subscriptions", shapes={"self": SVC_A, "subscription_id": T.int()}, modifies=["self.subscriptions", _M],
          inline=[f"{SV}.remove_subscription"],
          ensures={"no_subscription_with_this_id_remains": "all(hash(s.subscription_request) != subscription_id for s in self.subscriptions)",
                   "subscriptions_with_other_ids_stay_in_order": "[s for s in old_subscriptions(self) if hash(s.subscription_request) != subscription_id] == [s for s in self.subscriptions if hash(s.subscription_request) != subscription_id]",
                   "acknowledged_iff_some_subscription_had_this_id": "result == any(hash(s.subscription_request) == subscription_id for s in old_subscriptions(self))"},
          cover=["result", "not result"], **A)
-contract(f"{SV}.store_new_subscription_petition", shapes={"self": SVC_A, "subscription_request": SREQ, "callback": T.callback},
+contract(f"{SV}.store_new_subscription_petition", bound="0..2 existing subscriptions", shapes={"self": SVC_A, "subscription_request": SREQ, "callback": T.callback},
          requires=["now() >= 1072915200"], modifies=["self.subscriptions", _M],
          ensures={"appended_with_its_callback": "len(self.subscriptions) == old(len(self.subscriptions)) + 1 and self.subscriptions[len(self.subscriptions) - 1].subscription_request == subscription_request and self.subscriptions[len(self.subscriptions) - 1].callback is callback",
                   "existing_subscriptions_stay_in_order": "list(self.subscriptions)[:old(len(self.subscriptions))] == old_subscriptions(self)",
@@ -127,7 +127,7 @@ _TYPES = "all(1 <= t <= 21 for t in subscribe_data_consumer.data_object_type)"
 _PRIO = "(subscribe_data_consumer.priority is None or 0 <= subscribe_data_consumer.priority <= 255)"
 _NT = "(subscribe_data_consumer.notify_time is None or 0 <= subscribe_data_consumer.notify_time.timestamp_its <= 4398046511103)"
 _MULT = "(subscribe_data_consumer.multiplicity is None or 0 <= subscribe_data_consumer.multiplicity <= 255)"
-contract(f"{IF4}.validate_subscribe_data_consumer", shapes={"self": IF4S, "subscribe_data_consumer": SREQ_ANY},
+contract(f"{IF4}.validate_subscribe_data_consumer", bound="0..2 requested data object types", shapes={"self": IF4S, "subscribe_data_consumer": SREQ_ANY},
          inline=[f"{SV}.get_data_consumer_its_aid"],
          ensures={"unknown_consumer_refused": f"implies(not {_REG}, result is not None and result.result.value == 1)",
                   "unknown_data_object_type_refused": f"implies({_REG} and not {_TYPES}, result is not None and result.result.value == 2)",
@@ -146,7 +146,7 @@ def orec():
 ORD = lambda attr, d: T.rec(f"{CLS}:OrderTupleValue", attribute=T.const(attr), ordering_direction=T.enum(f"{CLS}:OrderingDirection", only=[d]))
 ORDERS = [T.tuple(ORD("a", d)) for d in ("ASCENDING", "DESCENDING")] + \
          [T.tuple(ORD("a", d1), ORD("b", d2)) for d1 in ("ASCENDING", "DESCENDING") for d2 in ("ASCENDING", "DESCENDING")]
-contract(f"{SV}.order_search_results", shapes={"self": SVC_A, "search_results": T.oneof(T.tuple(orec(), orec()), T.tuple(orec(), orec(), orec())), "orders": T.oneof(*ORDERS)},
+contract(f"{SV}.order_search_results", bound="2..3 results, 1..2 order attributes", shapes={"self": SVC_A, "search_results": T.oneof(T.tuple(orec(), orec()), T.tuple(orec(), orec(), orec())), "orders": T.oneof(*ORDERS)},
          props=["C14", "C13"],
          ensures={"one_sequence_with_the_same_objects": "len(result) == 1 and len(result[0]) == len(search_results) and all(any(r is s for r in result[0]) for s in search_results)",
                   "adjacent_results_follow_the_requested_attributes_and_directions": "all(in_requested_order(result[0][i], result[0][i + 1], orders) for i in range(len(result[0]) - 1))"},
